@@ -340,10 +340,12 @@ Section MaskFacts.
     amp_of RatioImf (AmpScalar A a) layer X (acc ++ [p]) = Some (amul a (std p)) /\
     (* an array of amplitudes is indexed by the layer; running off its end raises *)
     (forall mode, amp_of mode (AmpArray A l) layer X acc =
-                  match nth_error l layer with Some a' => amp_of mode (AmpScalar A a') layer X acc | None => None end).
+                  match nth_error l layer with Some a' => amp_of mode (AmpScalar A a') layer X acc | None => None end) /\
+    (* a numpy scalar is a single number like a Python one *)
+    (forall mode, amp_of mode (AmpNpScalar A a) layer X acc = amp_of mode (AmpScalar A a) layer X acc).
   Proof.
     intros X acc p a l layer. repeat split.
-    - unfold MaskSift.amp_of, MaskSift.amp_sd.
+    - unfold MaskSift.amp_of, MaskSift.amp_of_gen, MaskSift.amp_sd.
       destruct (acc ++ [p]) as [|b r] eqn:E; [destruct acc; discriminate|].
       rewrite <- E. rewrite last_last. reflexivity.
   Qed.
@@ -357,6 +359,12 @@ Section MaskFacts.
     - apply (f_equal (@length V)) in E. rewrite firstn_length in E. cbn [length] in E. lia.
     - rewrite <- E. rewrite (last_firstn V vzero imfs k Hk). reflexivity.
   Qed.
+
+  (* the code before the repair indexed numpy scalars *)
+  Lemma amp_numpy_scalar_v0 : forall mode a layer X acc,
+    MaskSift.amp_of_v0 V A vzero amul aone std mode (AmpNpScalar A a) layer X acc = None /\
+    amp_of mode (AmpNpScalar A a) layer X acc = Some (amul a (amp_sd mode X acc)).
+  Proof. intros. split; reflexivity. Qed.
 
   Lemma amp_abs_ignores_std : forall (std' : V -> A) arg layer X acc,
     amp_of AmpAbs arg layer X acc = MaskSift.amp_of V A vzero amul aone std' AmpAbs arg layer X acc.
@@ -419,7 +427,7 @@ Section MaskFacts.
     unfold MaskSift.mask_sift, mask_sift_gen in H.
     destruct (mask_freqs src s max_imfs X) as [[fr cap]|] eqn:Ef; [|discriminate].
     destruct (peel_loop V vzero vadd vsub small
-                (fun layer => layer_extract V A F vzero amul aone std
+                (fun layer => layer_extract V A F vzero amul aone std false
                                 (MaskSift.gni_mask V A F vzero vadd vsub vscale vdivn cosm extract) fr mode arg n X layer)
                 fuel (Some cap) X []) as [imfs' e'] eqn:Ep.
     inversion H; subst imfs' e' fr. clear H.
@@ -427,6 +435,7 @@ Section MaskFacts.
     intros k Hk.
     destruct (peel_kth V vzero vadd vsub small _ fuel (Some cap) X imfs e k Ep Hk) as (f & nn & Hx).
     unfold layer_extract in Hx.
+    change (MaskSift.amp_of_gen V A vzero amul aone std false) with (MaskSift.amp_of V A vzero amul aone std) in Hx.
     destruct (nth_error freqs k) as [z|]; [|discriminate].
     destruct (amp_of mode arg k X (firstn k imfs)) as [amp|]; [|discriminate].
     exists z, amp, f. repeat split.
@@ -447,12 +456,13 @@ Section MaskFacts.
     unfold MaskSift.mask_sift_pool, MaskSift.mask_sift, mask_sift_gen.
     destruct (mask_freqs src s max_imfs X) as [[fr cap]|]; [|reflexivity].
     rewrite (peel_loop_ext
-               (fun layer => layer_extract V A F vzero amul aone std
+               (fun layer => layer_extract V A F vzero amul aone std false
                                (MaskSift.gni_mask_pool V A F vzero vadd vsub vscale vdivn cosm exec_w (scheds layer)) fr mode arg n X layer)
-               (fun layer => layer_extract V A F vzero amul aone std
+               (fun layer => layer_extract V A F vzero amul aone std false
                                (MaskSift.gni_mask V A F vzero vadd vsub vscale vdivn cosm extract) fr mode arg n X layer)).
     - reflexivity.
     - intros l acc r. unfold layer_extract.
+      change (MaskSift.amp_of_gen V A vzero amul aone std false) with (MaskSift.amp_of V A vzero amul aone std).
       destruct (nth_error fr l) as [z|]; [|reflexivity].
       destruct (amp_of mode arg l X acc) as [amp|]; [|reflexivity].
       destruct (Hv l) as [nw Hnw]. apply (gni_mask_schedule_independent nw (scheds l) r z amp n Hnw).
@@ -561,6 +571,24 @@ Proof.
   intros c nworkers s X z amp n Hv. unfold fx_gni_mask_pool, fx_gni_mask.
   apply (gni_mask_schedule_independent (list Z) Z Q (Toys.vzero (length X)) Toys.vadd Toys.vsub fx_vscale fx_vdivn
            (fx_cosm (length X)) (fx_gni c) (fun _ => fx_gni c) (fun _ _ => eq_refl) nworkers s X z amp n Hv).
+Qed.
+
+(* finding C07-numpy-scalar-amplitude: before the repair a numpy scalar amplitude (np.int64(20) here) made mask_sift raise
+   IndexError before the first layer; the repaired code treats it like the Python number *)
+Lemma mask_sift_numpy_scalar_v0_refuted :
+  exists c X imfs e fr,
+    (exists e0 fr0, fx_mask_sift_v0 c 60 (FreqFloat Q (1 # 4)) (2 # 1) 3 (AmpNpScalar Z 20) 4 X = Some ([], e0, fr0) /\ raised e0 = true) /\
+    fx_mask_sift c 60 (FreqFloat Q (1 # 4)) (2 # 1) 3 (AmpNpScalar Z 20) 4 X = Some (imfs, e, fr) /\
+    fx_mask_sift c 60 (FreqFloat Q (1 # 4)) (2 # 1) 3 (AmpScalar Z 20) 4 X = Some (imfs, e, fr) /\
+    length imfs = 3%nat /\ raised e = false.
+Proof.
+  exists [0; 0; 20; 1; 1; 0; 1; 8; 1; 16; 1; 2; 1; 16; 1; 0; 0].
+  exists (to_fx [36; 8; 4; -20; 4; 24; 48; 60; 48; 24; 48; 12; 24; 40; 4; 24; 20; 12; 48; 24; 28; -8; -44; -80; -48; -84; -72; -84; -68; -104; -76; -84]).
+  eexists. eexists. eexists.
+  split; [eexists; eexists; split; vm_compute; reflexivity|].
+  split; [vm_compute; reflexivity|].
+  split; [vm_compute; reflexivity|].
+  split; vm_compute; reflexivity.
 Qed.
 
 (* ---- a concrete, non-trivial state ----------------------------------------------------------------------------- *)
